@@ -136,6 +136,7 @@ BAD = {
     'bad_raw': lambda x: (x.c.code(1), {'raw': 2}),
     'consumed_fst': 'consumed',
     'nonroot_fst': 'nonroot',
+    'own_root_as_code': lambda x: (x.root, {}),          # the tree's own root passed as the code to put into it
 }
 
 
@@ -201,6 +202,68 @@ def _mk_fail(cid, kind):
     return fn
 
 
+ARGS_AS = ['kw', 'pos', 'arg', 'kw_only', 'arg_only', 'pos_maybe', 'arg_maybe', 'kw_maybe']
+
+
+def _mk_args_cut(cid):
+    """cut of an arguments slice with an args_as conversion that may be impossible: a raise must leave the target as it was"""
+    src, _ = ARGS_CARRIERS[cid]
+
+    def fn(a: int, b: int, m: int):
+        assume(0 <= m < len(ARGS_AS))
+        mode = ARGS_AS[pc.pin(m, 0, len(ARGS_AS) - 1)]
+        with pc.untraced():
+            root = FST(src, 'exec')
+            dump0 = ast.dump(root.a, include_attributes=True)
+            pc.reset_globals()
+        args = _args_node(root, cid)
+        sig = f'{cid}.cut(args_as={mode!r})'
+        try:
+            piece = args.get_slice(a, b, '_all', cut=True, args_as=mode)
+        except pc.EXPECTED_RAISES:
+            with pc.untraced():
+                check(root.src == src, sig + '.src_changed_by_failed_cut', root.src)
+                pc.realize_tree(root.a)
+                d = ast.dump(root.a, include_attributes=True)
+                check(d == dump0, sig + '.tree_changed_by_failed_cut', pc._first_diff(dump0, d))
+                check(not fst_core._MODIFYING, sig + '.modification_lock_leaked')
+                pc.links_ok(root, sig)
+            cover('raise')
+            return
+        with pc.untraced():
+            pc.o_parse(root, sig + '.ok')
+        cover('ok')
+    return fn
+
+
+def p1_root_replace_self(ci: int, how: int):
+    """root.replace(root) / root.replace(own child) / child.replace(root): circular puts must be refused and leave the tree usable"""
+    cs = [c_ for c_ in pc.CARRIERS if c_.id in ('list4c', 'ifbody3', 'tuple3', 'callargs')]
+    assume(0 <= ci < len(cs) and 0 <= how <= 2)
+    c = cs[pc.pin(ci, 0, len(cs) - 1)]
+    hw = pc.pin(how, 0, 2)
+    x = pc.Ctx(c)
+    sig = f'{c.id}.circular[{hw}]'
+    try:
+        if hw == 0:
+            x.root.replace(x.root)
+        elif hw == 1:
+            x.cont.replace(x.root)
+        else:
+            x.root.body[0].replace(x.root)
+    except pc.EXPECTED_RAISES + (AttributeError, TypeError, RecursionError) as e:
+        x.check_unchanged(sig + '.raise')
+        with pc.untraced():
+            pc.links_ok(x.root, sig + '.links_after_refusal')
+        check(not isinstance(e, (AttributeError, TypeError, RecursionError)), sig + '.internal_error_instead_of_refusal', (type(e).__name__, str(e)[:150]))
+        cover('raise')
+        return
+    with pc.untraced():
+        pc.o_parse(x.root, sig + '.accepted')
+        pc.links_ok(x.root, sig + '.accepted')
+    cover('accepted')
+
+
 def _mk_badopt(cid):
     """int-valued option out of range: pep8space accepts only True/False/1."""
     c = pc.CARRIER[cid]
@@ -251,3 +314,14 @@ for _cid, (_src, _codes) in ARGS_CARRIERS.items():
                           f'carrier {_src!r}; put_slice({_code!r}, a, b, "_all") for all integers a, b (ordering rules decide per position), then put_slice("zz", i, i) for all i',
                           tier='quick' if (_cid, _code) in (('args_star', '**k'), ('args_mix', '*z'), ('args_star', 'y=2')) else 'thorough', budget=400, per_path=60,
                           reset=pc.reset_globals))
+for _cid in ARGS_CARRIERS:
+    CELLS.append(Cell(f'P1.{_cid}.args_cut_as', _mk_args_cut(_cid), 'P', pc.FN_EDIT + ['fst.fst_get_slice._get_slice_arguments'],
+                      f'carrier {ARGS_CARRIERS[_cid][0]!r}; get_slice(a, b, "_all", cut=True, args_as=m) for all integers a, b and m over {ARGS_AS}: a raise leaves source, tree and registry unchanged',
+                      tier='quick', budget=400, per_path=60, reset=pc.reset_globals))
+CELLS.append(Cell('P1.circular_put', p1_root_replace_self, 'P', pc.FN_EDIT + ['fst.fst.FST.replace'],
+                  'root.replace(root), container.replace(root), statement.replace(root) on 4 carriers: refused with a proper error, tree unchanged, links intact',
+                  tier='quick', budget=300, per_path=60, reset=pc.reset_globals))
+for _cid in ('list4c', 'ifbody3', 'callargs'):
+    for c_ in CELLS:
+        if c_.name == f'P1.{_cid}.own_root_as_code':
+            c_.tier = 'quick'
